@@ -470,6 +470,36 @@ def oracle(ctx):
         if got != want:
             ctx.violation("before the first onset tzical reports %r, the first STANDARD component is %r" % (got, want),
                           {"kind": "before-first", "tzstr": s, "mode": mode}, text)
+    # line folding: a definition folded at ANY position (also right after a space, inside TZID / TZNAME values that
+    # contain spaces) denotes the same zones with the same names as the unfolded text
+    spec = gen_spec(rng)
+    base = vtimezone(spec, tzid="Test/US Eastern", names=("Eastern Standard Time", "Eastern Daylight Time"))
+    try:
+        ref = load(base)
+        ref_names = (list(ref.keys()), [c.tzname for c in ref.get()._comps])
+        lines = base.split("\r\n")
+        budget = ctx.budget(400, 6000)
+        tried = 0
+        for li, line in enumerate(lines):
+            for pos in range(1, len(line)):
+                if tried >= budget:
+                    break
+                if not (line.startswith(("TZID", "TZNAME")) or (li + pos) % 7 == 0):
+                    continue
+                tried += 1
+                folded = "\r\n".join(lines[:li] + [line[:pos], " " + line[pos:]] + lines[li + 1:])
+                ctx.case(("fold", li, pos)); ctx.count("fold_positions")
+                try:
+                    t = load(folded)
+                    got = (list(t.keys()), [c.tzname for c in t.get()._comps])
+                except Exception as ex:
+                    got = "raised " + exc_kind(ex)
+                if got != ref_names:
+                    ctx.violation("folding line %d at column %d changes the definition: %r instead of %r" % (li, pos, got, ref_names),
+                                  {"kind": "fold", "line": li, "col": pos}, folded)
+                    break
+    except Exception as ex:
+        ctx.violation("unfolded reference definition rejected: %s" % exc_kind(ex), {"kind": "fold-ref"}, base)
     # all-DAYLIGHT definition: the first component applies before the first onset
     spec = gen_spec(rng)
     t = vtimezone(spec).replace("STANDARD", "DAYLIGHT")
